@@ -569,3 +569,112 @@ package grpctunnel
 //@     assert[C04,C14] @afterdone isClosed(doneOf(st.ctx))
 //@   ensures[C04,C14] @onewait count("blocking") == 1 && count("call:cancel") == 1
 //@   assigns rcancelled(st.receiver)
+
+// ----- serve loop --------------------------------------------------------------
+
+// Carrier frames: a received message is non-nil when the error is nil.
+//@ func (*tunnelServer).serve
+//@   ghost recvErr error = nil
+//@   ghost createErr error = nil
+//@   ghost createOK bool = true
+//@   ghost getErr error = nil
+//@   at aftercall Recv#1
+//@     ghost recvErr = result1
+//@   at aftercall createStream#1
+//@     ghost createOK = result0
+//@     ghost createErr = result1
+//@   at aftercall getStream#1
+//@     ghost getErr = result1
+//@   at call createStream#1
+//@     assert[C04,C17] @rootctx arg1 == ctx
+//@     assert[C08]     @sameid  arg2 == in.StreamId
+//@   at call getStream#1
+//@     assert[C01,C03] @demux arg1 == in.StreamId
+//@   at call acceptClientFrame#1
+//@     assert[C01,C03] @dispatch arg1 == in.Frame && getErr == nil
+//@   at go#1
+//@     assert[C11,C13] @settingsiff s.clientAcceptsSettings && count("go") == 0
+//@   at go#2
+//@     assert[C03,C10,C13] @rejection createOK && createErr != nil
+//@   at return#1
+//@     assert[C03,C09] @eof recvErr == io.EOF
+//@   at return#2
+//@     assert[C03,C09] @carrier result == recvErr && recvErr != nil
+//@   at return#3
+//@     assert[C03,C08,C09] @idviolation !createOK && result == createErr
+//@   at return#4
+//@     assert[C03,C08,C09] @unknownid result == getErr && getErr != nil
+//@   loop 1 invariant true
+//@   ensures[C04,C14] @rootcancelled cancelCalled(cancel)
+//@   locks s.mu, str.writeMu, str.svr.mu
+//@   assigns *
+//@   nopanic[C09]
+
+// Settings frame: stream id -1, advertised window = enforced window, own revisions.
+//@ func (*tunnelServer).serve$1
+//@   requires s != nil
+//@   ghost revs []tunnelpb.ProtocolRevision = nil
+//@   at aftercall supportedRevisions#1
+//@     ghost revs = result
+//@   at call Send#1
+//@     assert[C11,C13] @settingsframe arg0.StreamId == -1 && arg0.Frame is *tunnelpb.ServerToClient_Settings
+//@     assert[C06,C11] @window as(arg0.Frame, *tunnelpb.ServerToClient_Settings).Settings.InitialWindowSize == 65536
+//@     assert[C11]     @revisions sameSlice(as(arg0.Frame, *tunnelpb.ServerToClient_Settings).Settings.SupportedProtocolRevisions, revs)
+//@   ensures[C13,C14] @once count("carrierSend") == 1
+//@   assigns nothing
+//@   nopanic[C09]
+
+// Rejection reply: exactly one close frame for the rejected id.
+//@ func (*tunnelServer).serve$2
+//@   requires s != nil && in != nil
+//@   at call Send#1
+//@     assert[C10,C13] @closeframe arg0.StreamId == in.StreamId && arg0.Frame is *tunnelpb.ServerToClient_CloseStream
+//@     assert[C02,C10] @status as(arg0.Frame, *tunnelpb.ServerToClient_CloseStream).CloseStream.Status == statusProto(statusOf(err))
+//@   ensures[C13,C14] @once count("carrierSend") == 1
+//@   assigns nothing
+//@   nopanic[C09]
+
+//@ func (*tunnelOpts).supportedRevisions
+//@   assigns nothing
+//@   ensures[C11] @disabled t.disableFlowControl ==> len(result) == 1 && result[0] == 0
+//@   ensures[C11] @enabled  !t.disableFlowControl ==> len(result) == 2 && result[0] == 0 && result[1] == 1
+//@   nopanic[C09]
+
+// ----- per-stream closures created by createStream ------------------------------
+
+//@ func (*tunnelServer).createStream$1
+//@   requires s != nil
+//@   at call Send#1
+//@     assert[C01,C13] @envelope first && arg0.StreamId == streamID && arg0.Frame is *tunnelpb.ServerToClient_ResponseMessage
+//@     assert[C01,C13] @body as(arg0.Frame, *tunnelpb.ServerToClient_ResponseMessage).ResponseMessage.Size == totalSize && sameSlice(as(arg0.Frame, *tunnelpb.ServerToClient_ResponseMessage).ResponseMessage.Data, data)
+//@   at call Send#2
+//@     assert[C01,C13] @continuation !first && arg0.StreamId == streamID && arg0.Frame is *tunnelpb.ServerToClient_MoreResponseData && sameSlice(as(arg0.Frame, *tunnelpb.ServerToClient_MoreResponseData).MoreResponseData, data)
+//@   ensures[C01,C13] @onesend count("carrierSend") == 1
+//@   assigns nothing
+//@   nopanic[C09]
+
+//@ func (*tunnelServer).createStream$2
+//@   assigns nothing
+//@   ensures[C05,C06] @reqmsg  m is *tunnelpb.ClientToServer_RequestMessage ==> result == len(as(m, *tunnelpb.ClientToServer_RequestMessage).RequestMessage.Data)
+//@   ensures[C05,C06] @moredata m is *tunnelpb.ClientToServer_MoreRequestData ==> result == len(as(m, *tunnelpb.ClientToServer_MoreRequestData).MoreRequestData)
+//@   ensures[C05,C06] @other   !(m is *tunnelpb.ClientToServer_RequestMessage) && !(m is *tunnelpb.ClientToServer_MoreRequestData) ==> result == 0
+//@   nopanic[C09]
+
+//@ func (*tunnelServer).createStream$3
+//@   requires s != nil && str != nil
+//@   at call Send#1
+//@     assert[C05,C13] @creditframe arg0.StreamId == streamID && arg0.Frame is *tunnelpb.ServerToClient_WindowUpdate && as(arg0.Frame, *tunnelpb.ServerToClient_WindowUpdate).WindowUpdate == windowUpdate
+//@   ensures[C05,C13] @atmostone count("carrierSend") <= 1
+//@   assigns nothing
+//@   nopanic[C09]
+
+//@ func (*tunnelServerStream).loadHalfClosed
+//@   inline
+
+//@ func serveTunnel
+//@   requires stream != nil && isClosing != nil && opts != nil
+//@   at call serve#1
+//@     assert[C03,C08] @fresh arg0.lastSeen == -1 && arg0.streams != nil && arg0.stream == stream && arg0.isClosing == isClosing && arg0.tunnelOpts == opts && arg0.clientAcceptsSettings == clientAcceptsSettings
+//@     assert[C17]     @tunnelmd arg1 == tunnelMetadata
+//@   locks s.mu
+//@   assigns *
